@@ -128,12 +128,17 @@ func (g *vhGen) fill(v vhreflect.Value, depth int) {
 	typ := v.Type()
 	if consts, ok := vhEnums[typ]; ok && len(consts) > 0 {
 		g.enums++
-		i := 0
 		if !g.full {
-			i = vhrapid.IntRange(0, len(consts)-1).Draw(g.t, "enum")
+			v.Set(consts[vhrapid.IntRange(0, len(consts)-1).Draw(g.t, "enum")])
+			return
 		}
-		v.Set(consts[i])
-		return
+		// full mode only serves as ground truth for key sets: any non-zero value will do
+		for _, c := range consts {
+			if !c.IsZero() {
+				v.Set(c)
+				return
+			}
+		}
 	}
 	if typ == vhTimeType || (typ.Kind() == vhreflect.Struct && typ.ConvertibleTo(vhTimeType) && vhUserJSON[typ]) {
 		secs := int64(1700000000)
@@ -889,6 +894,10 @@ func vhMulti(t vhreflect.Type, depth int) bool {
 	case vhreflect.Array:
 		return t.Len() > 0 && vhMulti(t.Elem(), depth+1)
 	case vhreflect.Map:
+		// 40+ insertions saturate a small key space (enum keys): then only the elements vary
+		if _, isEnum := vhEnums[t.Key()]; isEnum || t.Key().Kind() == vhreflect.Bool {
+			return vhMulti(t.Elem(), depth+1)
+		}
 		return vhMulti(t.Key(), depth+1) || vhMulti(t.Elem(), depth+1)
 	case vhreflect.Ptr:
 		return vhMulti(t.Elem(), depth+1)
